@@ -241,14 +241,22 @@ def explore(c, sc, roots, pools, pools2, u, res):
 
 def check_single_steps(c, sc, docs, pool, res, marks):
     model = c.model
-    for d in docs:
+    top_attrs = list(model.types[model.top].attrs)
+    work = [(d, False) for d in docs]
+    # the same documents with a falsy-but-meaningful value in each document attribute (old values 0, "", False, []
+    # must come back on undo just like any other): document-attribute steps only
+    for d in docs[:: max(1, len(docs) // 4)][:4]:
+        for a in top_attrs:
+            for fv in (0, "", False, []):
+                work.append(({**d, "attrs": {**(d.get("attrs") or {}), a: fv}}, True))
+    for d, doc_attr_only in work:
         node = c.node(d)
         T = tk.doc_tokens(model, d)
         n = len(T)
         res.states += 1
-        steps = list(gen_steps.replace_steps(n, pool, structure=(False, True)))
+        steps = [] if doc_attr_only else list(gen_steps.replace_steps(n, pool, structure=(False, True)))
         ref = rp.RefDoc(model, d)
-        for p in range(n + 1):
+        for p in range(0 if doc_attr_only else n + 1):
             tgt = ref.node_at(ref.root, p)
             if tgt is not None and not tgt.is_text:
                 for a in tgt.tm.attrs:
